@@ -91,9 +91,14 @@ def explore(ctx):
         if rng.random() < 0.5 and data.endswith(b'\n'):
             data = data[:-1]                      # a final line without newline
         want = expected_lines(q, data)
-        cuts = sorted(rng.sample(range(1, max(2, len(data))), min(len(data) - 1, rng.randint(0, 12)))) if len(data) > 2 else []
+        cuts = set(rng.sample(range(1, max(2, len(data))), min(len(data) - 1, rng.randint(0, 12)))) if len(data) > 2 else set()
+        # deliberately cut INSIDE multi-byte characters too (before a continuation byte), and pause there so
+        # that the two halves arrive in different reads
+        inside = [i for i in range(1, len(data)) if 0x80 <= data[i] <= 0xBF]
+        mid = set(rng.sample(inside, min(len(inside), 3)))
+        cuts = sorted(cuts | mid)
         pieces = [data[a:b] for a, b in zip([0] + cuts, cuts + [len(data)])]
-        chunks = [(pc, rng.choice([0, 0, 0.005, 0.07, 0.12])) for pc in pieces]
+        chunks = [(pc, (0.02 if b in mid else rng.choice([0, 0, 0.005, 0.07, 0.12]))) for pc, b in zip(pieces, cuts + [len(data)])]
         out, sent, rc, err = run_scheduled(q, chunks)
         evaluations += 1
         got = [l for _t, l in out]
